@@ -475,6 +475,13 @@ impl RequestIdManager {
 		self.id_kind.into_id(self.current_id.next())
 	}
 
+	/// Reserves `len` consecutive request IDs for a batch request and returns the first one.
+	///
+	/// No other request gets one of them as long as the counter doesn't wrap.
+	pub fn next_batch_request_id(&self, len: usize) -> Id<'static> {
+		self.id_kind.into_id(self.current_id.next_n(len))
+	}
+
 	/// Get a handle to the `IdKind`.
 	pub fn as_id_kind(&self) -> IdKind {
 		self.id_kind
@@ -509,8 +516,12 @@ impl CurrentId {
 	}
 
 	fn next(&self) -> u64 {
+		self.next_n(1)
+	}
+
+	fn next_n(&self, n: usize) -> u64 {
 		self.0
-			.fetch_add(1, Ordering::Relaxed)
+			.fetch_add(n.max(1), Ordering::Relaxed)
 			.try_into()
 			.expect("usize -> u64 infallible, there are no CPUs > 64 bits; qed")
 	}
